@@ -3,7 +3,7 @@
    (the whole message, or the RDLENGTH window while decoding RDATA). *)
 From RsdnsModel Require Import Base Cursor Names Labels.
 From RsdnsModel.Spec Require Import WireName.
-From RsdnsModel.Proofs Require Import CursorSafe LabelsTotal LabelsSound.
+From RsdnsModel.Proofs Require Import CursorSafe LabelsTotal LabelsSound LabelsComplete.
 Open Scope N_scope.
 
 (* Any accepted name is the RFC 1035 §4.1.4 expansion (every pointer to a prior position, at most
@@ -42,3 +42,20 @@ Proof.
   destruct (read_name msg nk c) as [[t c']| | | | |] eqn:E; cbn in D; try tauto; eauto.
   exfalso. apply Hn. destruct (read_name_sound msg nk c t c' Hc E) as (ls & H1 & H2 & _ & H3 & _). eauto.
 Qed.
+
+(* COMPLETENESS: every name that has a legal expansion on the visible buffer (pointers only to prior
+   positions, at most 32 of them), valid labels and at most 255 octets IS accepted — by both name
+   types and by skipping — decodes to the text of exactly those labels and resumes where the
+   spec says.  With C03_read_sound: the decoder accepts exactly the legal names. *)
+Theorem C03_read_complete : forall msg nk c ls,
+  cwf msg c -> expands (vis msg c) None 0 (pos c) ls ->
+  Forall (fun l => label_ok (snd l) = true) ls -> wire_len (map snd ls) <= 255 ->
+  exists c', read_name msg nk c = Ok (join_labels (map snd ls), c') /\
+    resume_at (vis msg c) (pos c) (pos c') /\ lim c' = lim c /\ orig c' = orig c.
+Proof. exact read_name_complete. Qed.
+
+Theorem C03_skip_complete : forall msg c ls,
+  cwf msg c -> expands (vis msg c) None 0 (pos c) ls ->
+  Forall (fun l => label_ok (snd l) = true) ls -> wire_len (map snd ls) <= 255 ->
+  exists c', skip_name msg c = Ok c' /\ resume_at (vis msg c) (pos c) (pos c').
+Proof. exact skip_name_complete. Qed.
